@@ -69,8 +69,10 @@ def _all_returns_tail(body: List[ast.stmt]) -> bool:
                 if not last and not (_definitely_returns(s.body) or (s.orelse and _definitely_returns(s.orelse))):
                     return False
             continue
+        if isinstance(s, ast.With) and last and _all_returns_tail(s.body):
+            continue                # `with …: return v` at the end: the value is computed inside, handed over after the block
         if _has_return([s]):
-            return False            # return inside loop / try / with / match
+            return False            # return inside loop / try / match / a with that is not the last statement
     return True
 
 
@@ -130,6 +132,12 @@ def _tailify(body: List[ast.stmt], k) -> Tuple[List[ast.stmt], bool]:
             ast.copy_location(new, s)
             out.append(new)
             return out, off1 or off2 or not s.orelse
+        if isinstance(s, ast.With) and _has_return([s]) and not rest:
+            b, off = _tailify(s.body, k)
+            new = ast.With(items=s.items, body=b or [ast.Pass()])
+            ast.copy_location(new, s)
+            out.append(new)
+            return out, off
         out.append(s)
     return out, True
 
@@ -356,6 +364,49 @@ def _hoistable(stmt, is_helper) -> Optional[Tuple[ast.Call, ast.Call]]:
     return (v, found) if found is not None else None
 
 
+_PURE = {'len', 'abs', 'int', 'float', 'str', 'bool', 'isinstance', 'min', 'max', 'round', 'repr', 'tuple', 'sorted', 'sum', 'any', 'all'}
+
+
+def _embedded_helper_call(expr, is_helper):
+    """A single helper call buried in an expression at a position that is evaluated unconditionally and exactly once, where every other
+    call of the expression is a side-effect-free builtin on plain arguments.  Returns (parent node, field, index, call) or None."""
+    found = []
+
+    def rec(n, uncond):
+        for fld, val in ast.iter_fields(n):
+            vals = val if isinstance(val, list) else [val]
+            for i, c in enumerate(vals):
+                if not isinstance(c, ast.AST):
+                    continue
+                u = uncond
+                if isinstance(n, ast.BoolOp) and not (fld == 'values' and i == 0):
+                    u = False
+                if isinstance(n, ast.IfExp) and fld != 'test':
+                    u = False
+                if isinstance(n, _COMPS + (ast.Lambda,)):
+                    u = False
+                if isinstance(c, ast.Call) and is_helper(c):
+                    found.append((n, fld, i if isinstance(val, list) else None, c, u))
+                    continue
+                rec(c, u)
+    rec(expr, True)
+    if len(found) != 1 or not found[0][4]:
+        return None
+    parent, fld, idx, call, _u = found[0]
+    for n in ast.walk(expr):
+        if isinstance(n, ast.Call) and n is not call:
+            if not (isinstance(n.func, ast.Name) and n.func.id in _PURE and all(_simple_arg(a) or isinstance(a, ast.Subscript) and _simple_arg(a.value) for a in n.args) and not n.keywords):
+                # method calls on plain receivers with plain args (x.get('k'), s.strip()) are tolerated as well
+                if not (isinstance(n.func, ast.Attribute) and _simple_arg(n.func.value) and n.func.attr in ('get', 'strip', 'lower', 'upper', 'startswith', 'endswith', 'exists', 'join', 'isfile', 'isdir')
+                        and all(_simple_arg(a) for a in n.args)):
+                    return None
+        if isinstance(n, (ast.NamedExpr, ast.Await, ast.Yield, ast.YieldFrom)):
+            return None
+    if any(is_helper(x) for a in call.args for x in ast.walk(a) if isinstance(x, ast.Call)):
+        return None
+    return parent, fld, idx, call
+
+
 def _result_name(h) -> str:
     """name for a temporary that receives the helper's result: the variable the helper returns, when it always returns the same one"""
     rets = [n.value for n in _own(h) if isinstance(n, ast.Return)]
@@ -475,6 +526,7 @@ def inline_module(tree: ast.Module, known: Set[str]) -> Dict[str, int]:
                     hd.body = block(hd.body)
                 c = _call_of(s)
                 done = None
+                done_flag = [False]
 
                 def lookup(call):
                     if isinstance(call.func, ast.Name):
@@ -523,6 +575,28 @@ def inline_module(tree: ast.Module, known: Set[str]) -> Dict[str, int]:
                             out.extend(block(pre_stmts))
                             out.append(s)
                             continue
+                if c is None and isinstance(s, (ast.If, ast.Return, ast.Assign, ast.Expr)) and not done_flag[0]:
+                    # helper call buried in the test / value: computed into a temporary first when that cannot change what is observed
+                    hdr = s.test if isinstance(s, ast.If) else s.value
+                    if hdr is not None and not (isinstance(hdr, ast.Call) and lookup(hdr)[0] is not None):
+                        emb = _embedded_helper_call(hdr, lambda call: lookup(call)[0] is not None)
+                        if emb is not None:
+                            par, fld, idx, call = emb
+                            h, is_m = lookup(call)
+                            tmpname = _result_name(h)
+                            asg = ast.Assign(targets=[ast.Name(id=tmpname, ctx=ast.Store())], value=call)
+                            ast.copy_location(asg, s)
+                            pre_stmts = _inline_at(h, call, asg, f, is_m)
+                            if pre_stmts is not None:
+                                ref_ = ast.copy_location(ast.Name(id=tmpname, ctx=ast.Load()), call)
+                                if idx is None:
+                                    setattr(par, fld, ref_)
+                                else:
+                                    getattr(par, fld)[idx] = ref_
+                                stats[h.name] = stats.get(h.name, 0) + 1
+                                out.extend(block(pre_stmts))
+                                out.append(s)
+                                continue
                 if c is not None:
                     h, is_m = None, False
                     if isinstance(c.func, ast.Name):
